@@ -131,7 +131,7 @@ Proof.
 Qed.
 
 (* ---- parsed expressions qualify ---- *)
-From Exmex.Proofs Require Import DeepParse C03Main Accept ParseBuilt.
+From Exmex.Proofs Require Import DeepCompile DeepParse C03Main Accept ParseBuilt.
 Theorem parsed_built (c : chain (D:=R)) : wf_chain tb c = true ->
   exists e, parse_deep_tokens Rc tb (flatten c) = Ok e /\ dvars e = find_parsed_vars (flatten c) /\ built e.
 Proof.
@@ -143,4 +143,75 @@ Proof.
   - split; [exact Hv|].
     destruct (dparse_good Rc tb vars _ _ _ _ _ _ e [] (Forall_nil _) Hp) as (Hh & Hn & Hl).
     split; [|split; assumption]. rewrite Hv. exact (dwf_okl vars _ _ _ e Hw Hl).
+Qed.
+
+(* ---- Differentiate::partial_iter: index check, the derivatives one after the other, a final compile ---- *)
+Lemma compile_consistent (all : list str) (d r : deepex R) : StronglySorted str_lt all -> dconsistent tfl all d -> nf d ->
+  dcompile Rc d = Ok r -> dconsistent tfl all r /\ nf r /\ forall rho, ddenR rho r = ddenR rho d.
+Proof.
+  intros HS Hc Hn H. split; [|split].
+  - destruct (dcompile_ok Rc eq (@eq_refl R) (@eq_sym R) (@eq_trans R) eqR_bin eqR_un tfl (DeepOps.flagged_assoc Rc tb eq Rc_assoc)
+                (nlook (fun _ => 0%R)) (indexed all) (is_list all) d Hc) as (r' & Hr & Hw & _).
+    rewrite H in Hr. inversion Hr; subst r'. exact Hw.
+  - exact (dcompile_nf Rc d r (nf_nfc d Hn) H).
+  - intros rho.
+    destruct (dcompile_ok Rc eq (@eq_refl R) (@eq_sym R) (@eq_trans R) eqR_bin eqR_un tfl (DeepOps.flagged_assoc Rc tb eq Rc_assoc)
+                (nlook rho) (indexed all) (is_list all) d Hc) as (r' & Hr & _ & Hd).
+    rewrite H in Hr. inversion Hr; subst r'. exact Hd.
+Qed.
+
+(* r is reached from e by differentiating with respect to the listed variables, one after the other: every step is
+   built, keeps the variable list, and denotes the derivative of the previous step wherever that step is in its domain *)
+Fixpoint deriv_chain (e : deepex R) (idxs : list nat) (r : deepex R) : Prop :=
+  match idxs with
+  | [] => forall rho, ddenR rho r = ddenR rho e
+  | i :: tl =>
+      exists d, built d /\ dvars d = dvars e /\
+        (forall rho, in_domain e i rho ->
+           is_derive (fun t => ddenR (line rho (nth i (dvars e) []) t) e) (rho (nth i (dvars e) [])) (ddenR rho d)) /\
+        deriv_chain d tl r
+  end.
+
+Lemma fold_partial_err (idxs : list nat) (x : res (deepex R)) : (forall o, x <> Ok o) ->
+  forall o, fold_left (fun acc i => do a <- acc; partial_deepex Rc RDC tb (S (S (ddepth a))) i a MError) idxs x <> Ok o.
+Proof.
+  revert x. induction idxs as [|i tl IH]; intros x Hx o; [apply Hx|]. cbn [fold_left]. apply IH.
+  intros o'. destruct x as [a| |]; cbn [bind]; [exfalso; exact (Hx a eq_refl)|discriminate|discriminate].
+Qed.
+Lemma fold_partial_chain : forall (idxs : list nat) (e last : deepex R), built e ->
+  Forall (fun i => i < length (dvars e)) idxs ->
+  fold_left (fun acc i => do a <- acc; partial_deepex Rc RDC tb (S (S (ddepth a))) i a MError) idxs (Ok e) = Ok last ->
+  built last /\ dvars last = dvars e /\
+  (idxs <> [] -> dconsistent tfl (dvars e) last) /\
+  forall r, (forall rho, ddenR rho r = ddenR rho last) -> deriv_chain e idxs r.
+Proof.
+  induction idxs as [|i tl IH]; intros e last Hb Hidx H.
+  - cbn in H. inversion H; subst last. split; [exact Hb|]. split; [reflexivity|]. split; [congruence|]. intros r Hr. exact Hr.
+  - cbn [fold_left bind] in H. inversion Hidx as [|? ? Hi Htl]; subst.
+    destruct (partial_deepex Rc RDC tb (S (S (ddepth e))) i e MError) as [d| |] eqn:Ed.
+    2,3: exfalso; refine (fold_partial_err tl _ _ last H); intros o' Ho'; discriminate.
+    destruct (partial_is_derivative e d i _ Hb Hi Ed) as (Vd & Cd & Nd & Hder).
+    pose proof (partial_built e d i _ Hb Hi Ed) as Hbd.
+    destruct (IH d last Hbd ltac:(rewrite Vd; exact Htl) H) as (Hbl & Vl & Cl & Hch).
+    split; [exact Hbl|]. split; [congruence|]. split.
+    + intros _. destruct tl as [|j tl']; [cbn in H; inversion H; subst last; exact Cd|]. rewrite <- Vd. apply Cl. discriminate.
+    + intros r Hr. cbn [deriv_chain]. exists d. split; [exact Hbd|]. split; [exact Vd|]. split; [exact Hder|exact (Hch r Hr)].
+Qed.
+
+Theorem partial_iter_chain (e r : deepex R) (i : nat) (tl : list nat) : built e ->
+  partial_iter_deep Rc RDC tb e (i :: tl) MError = Ok r ->
+  dvars r = dvars e /\ built r /\ deriv_chain e (i :: tl) r.
+Proof.
+  intros Hb H. unfold partial_iter_deep in H.
+  destruct (forallb (fun j => Nat.ltb j (length (dvars e))) (i :: tl)) eqn:Ef; cbn [negb] in H; [|discriminate].
+  assert (Hidx : Forall (fun j => j < length (dvars e)) (i :: tl)).
+  { apply Forall_forall. intros j Hj. rewrite forallb_forall in Ef. apply Nat.ltb_lt. exact (Ef j Hj). }
+  destruct (fold_left _ (i :: tl) (Ok e)) as [last| |] eqn:Efold; cbn [bind] in H; try discriminate.
+  destruct (fold_partial_chain (i :: tl) e last Hb Hidx Efold) as (Hbl & Vl & Cl & Hch).
+  specialize (Cl ltac:(discriminate)).
+  assert (HS : StronglySorted str_lt (dvars e)).
+  { destruct Hb as (Hc & _). destruct e as [n b u v]. unfold Ix in Hc. rewrite dwf_unfold in Hc. exact (proj1 (proj1 (proj2 Hc))). }
+  destruct (compile_consistent (dvars e) last r HS Cl (proj2 (proj2 Hbl)) H) as (Cr & Nr & Dr).
+  pose proof (dconsistent_vars _ _ _ Cr) as Vr.
+  split; [exact Vr|]. split; [apply consistent_built; rewrite ?Vr; assumption|exact (Hch r Dr)].
 Qed.
